@@ -72,6 +72,7 @@ Qed.
 Section C.
 Variable c : config.
 Hypothesis Hsafe : pending_owner_safe (vr c) = true.
+Local Notation K := (JobOnce.K (ctx_exact (vr c))).
 
 (** settle_one: kv of jobs and subs unchanged; recorded grows by the settling job's own key *)
 Lemma settle_one_view s j o :
@@ -137,8 +138,8 @@ Proof.
     { destruct (jnocse x); [discriminate|]. unfold lookup_pending in Etwin.
       destruct (find (fun p => key_eqb (fst p) (jkey x, jctx x)) (pending s)) as [[k t']|] eqn:Ef; [|discriminate].
       simpl in Etwin. injection Etwin as ->. apply find_some in Ef. destruct Ef as [Hin Hk]. simpl in Hk.
-      apply key_eqb_spec in Hk. subst k. destruct (k_pend _ Ks _ _ Hin) as (xt & Hxt & Hkc & _ & Hnt).
-      exists xt. repeat split; auto. eapply (k_stat _ Ks); eauto. }
+      apply key_eqb_spec in Hk. subst k. destruct (k_pend _ _ Ks _ _ Hin) as (xt & Hxt & Hkc & _ & Hnt).
+      exists xt. repeat split; auto. eapply (k_stat _ _ Ks); eauto. }
     destruct Ht as (xt & Hxt & Hkc & Hpt).
     eapply both_sframe; [apply sframe_skip|].
     set (s1 := setj s j (with_phase x (PCollapsed t))).
